@@ -872,6 +872,43 @@ run_case(Ctx& ctx)
     }
   ctx.count("linearity_voxels_checked", static_cast<long>(G.n));
 
+  // homogeneity over many orders of magnitude: scaling the input by a power of two scales every float32 product and sum
+  // exactly (no underflow at these magnitudes), so A(c x) == c A x and A'(c y) == c A'y must hold BIT FOR BIT, for data in
+  // "small units" (c = 2^-20 ... 2^-40) as well as large ones; a threshold or short-cut on small values breaks it
+  {
+    static const int exps[] = { -40, -30, -24, -20, -10, 12, 30 };
+    const int e = exps[rng.range(0, static_cast<long>(sizeof exps / sizeof exps[0]) - 1)];
+    const float c = std::ldexp(1.f, e);
+    std::vector<float> xs(G.n), ys(L.n);
+    for (size_t i = 0; i < G.n; ++i)
+      xs[i] = c * xv[i];
+    for (size_t i = 0; i < L.n; ++i)
+      ys[i] = c * yv[i];
+    shared_ptr<Img> xs_sptr(X.clone());
+    vec_img(*xs_sptr, G, xs);
+    ProjDataInMemory yspd(exam, pdi);
+    vec_to_pd(L, ys, yspd);
+    const std::vector<float> fxs = fwd_pd(*fwd, L, exam, *xs_sptr, 0, 1, true, SENT, 0);
+    for (size_t b = 0; b < L.n; ++b)
+      if (!(fxs[b] == c * fx[b]))
+        {
+          M.fail("forward-projection-not-homogeneous", L.describe(b) + vf::fmt(": A(c x) = %.9g but c*A x = %.9g for c = 2^%d (A x = %.9g)", fxs[b],
+                                                                         static_cast<double>(c * fx[b]), e, fx[b]));
+          return;
+        }
+    const std::vector<float> bys = back_whole(yspd, 0, 1);
+    for (size_t v = 0; v < G.n; ++v)
+      if (!(bys[v] == c * by[v]))
+        {
+          M.fail("back-projection-not-homogeneous", G.describe(v) + vf::fmt(": A'(c y) = %.9g but c*A'y = %.9g for c = 2^%d (A'y = %.9g)", bys[v],
+                                                                      static_cast<double>(c * by[v]), e, by[v]));
+          return;
+        }
+    fwd->set_input(X); // later clauses project x again through the RelatedViewgrams overloads
+    ctx.count("homogeneity_checks");
+    ctx.count(e < -15 ? "homogeneity_checks_small_units" : "homogeneity_checks_other_units");
+  }
+
   // ---------------------------------------------------------------------------------------------- (a) adjointness, whole data
   auto fwd_band_sum = [&](const std::vector<VG>& vgs, const std::vector<float>& y, const D2& F, bool tile, int a0, int a1, int t0, int t1,
                           double& abs_total) {
